@@ -19,7 +19,15 @@ run_one() {
   wt=$(mktemp -d /tmp/govc-mut-XXXXXX)
   rmdir "$wt"
   git -C /repo worktree add -q --detach "$wt" HEAD >/dev/null 2>&1 || { echo "SELFTEST-ERROR $name: worktree"; return 1; }
-  ( cd "$wt" && git apply --whitespace=nowarn "$OLDPWD/$p" ) || { echo "SELFTEST-ERROR $name: patch does not apply"; git -C /repo worktree remove --force "$wt"; return 1; }
+  # the base is /repo's working tree: its uncommitted changes are carried over first
+  if [ -n "$(git -C /repo status --porcelain --untracked-files=no)" ]; then
+    git -C /repo diff HEAD | ( cd "$wt" && git apply --whitespace=nowarn ) || { echo "SELFTEST-ERROR $name: working-tree changes do not carry over"; git -C /repo worktree remove --force "$wt"; return 1; }
+  fi
+  if ! ( cd "$wt" && git apply --whitespace=nowarn "$OLDPWD/$p" ) 2>/dev/null; then
+    git -C /repo worktree remove --force "$wt" >/dev/null 2>&1; rm -rf "$wt"
+    if [ -n "${SELFTEST_TOLERANT:-}" ]; then echo "skip $name ($prop): patch does not apply to the current tree"; return 0; fi
+    echo "SELFTEST-ERROR $name: patch does not apply"; return 1
+  fi
   out=$(bin/govc check "$prop" -repo "$wt" -noreplay -evidence /dev/null 2>&1)
   git -C /repo worktree remove --force "$wt" >/dev/null 2>&1
   rm -rf "$wt"
@@ -38,6 +46,9 @@ run_one() {
   fi
 }
 export -f run_one
-ls selftest/mutants/*${pat}*.patch 2>/dev/null | xargs -P 4 -I{} bash -c 'run_one {}' | tee /tmp/govc-selftest.log
-if grep -q "^MISS\|^FALSE-ALARM\|^SELFTEST-ERROR" /tmp/govc-selftest.log; then exit 1; fi
-exit 0
+log=$(mktemp /tmp/govc-selftest-XXXXXX.log)
+ls selftest/mutants/*${pat}*.patch 2>/dev/null | xargs -P ${SELFTEST_JOBS:-4} -I{} bash -c 'run_one {}' | tee "$log"
+rc=0
+if grep -q "^MISS\|^FALSE-ALARM\|^SELFTEST-ERROR" "$log"; then rc=1; fi
+rm -f "$log"
+exit $rc
